@@ -19,6 +19,8 @@ func init() {
 			headerWriterRules(c, "C10")
 			// the response head is taken apart by readLine
 			readLineRules(c, "C10")
+			// where the dialer connects to: host and port of the URL, defaults 80 / 443
+			c20DialConn(c)
 		},
 	})
 }
